@@ -74,6 +74,7 @@ func (s *State) clone() *State {
 
 // Exec is the symbolic executor for one top-level function (with inlined callees).
 type Exec struct {
+	bindSeen map[string]bool
 	eng   *Engine
 	sc    *Script
 	so    *Sorts
@@ -466,6 +467,36 @@ func (x *Exec) globalPtr(g *ssa.Global) Val {
 // ---------------- running a function ----------------
 
 type unsupported struct{ msg string }
+
+// bindFail reports a clause that cannot be connected to the code any more (the program point, call, return or
+// local variable it names is gone): a failed obligation `bind:<label>` with goal false, so that the rest of the
+// unit is still verified and the report names the clause.
+func (x *Exec) bindFail(label, msg string, pos token.Pos) {
+	if x.bindSeen == nil {
+		x.bindSeen = map[string]bool{}
+	}
+	if x.bindSeen[label+"|"+msg] {
+		return
+	}
+	x.bindSeen[label+"|"+msg] = true
+	x.oblige("bind", label, "false", pos, msg)
+}
+
+// trClause translates a contract clause at a program point; a clause that names a local variable not in scope there
+// is reported by bindFail and treated as absent (ok = false).
+func (x *Exec) trClause(label, text string, e CExpr, env *Env, pos token.Pos) (t Term, ok bool) {
+	defer func() {
+		if r := recover(); r != nil {
+			if u, isU := r.(unsupported); isU && strings.Contains(u.msg, "unknown identifier") {
+				x.bindFail(label, "clause cannot be evaluated at its program point ("+u.msg+"): "+strings.Join(strings.Fields(text), " "), pos)
+				t, ok = "true", false
+				return
+			}
+			panic(r)
+		}
+	}()
+	return x.trBool(e, env), true
+}
 
 func (x *Exec) fail(format string, a ...any) {
 	panic(unsupported{fmt.Sprintf(format, a...)})
@@ -900,7 +931,10 @@ func (x *Exec) returnAnchors(fr *Frame, b *ssa.BasicBlock, r *ssa.Return, vs []V
 				env.vars["err"] = vs[i]
 			}
 		}
-		t := x.trBool(ac.Clause.Expr, env)
+		t, okc := x.trClause(labelOr(ac.Clause.Label, 0), ac.Clause.Text, ac.Clause.Expr, env, r.Pos())
+		if !okc {
+			continue
+		}
 		if ac.Kind == "assert" {
 			x.oblige("hint", fmt.Sprintf("return%d:%s", n, labelOr(ac.Clause.Label, 0)), implies(reach, t), r.Pos(), ac.Clause.Text)
 		} else {
@@ -1097,6 +1131,9 @@ func (x *Exec) assumeHere(t Term) {
 }
 
 func (x *Exec) keepThin(kind, label string) bool {
+	if kind == "bind" {
+		return true
+	}
 	if kind == "post" && strings.HasPrefix(label, "ghost") {
 		// bookkeeping clause: defines a ghost counter (no code updates ghost state); assumed by callers, reported as such
 		return false
@@ -1156,7 +1193,10 @@ func (x *Exec) callAnchors(fr *Frame, calleeKey string, st *State, reach Term, p
 				env.vars["recv"] = x.val(fr, ci.Common().Value)
 			}
 		}
-		t := x.trBool(ac.Clause.Expr, env)
+		t, okc := x.trClause(labelOr(ac.Clause.Label, 0), ac.Clause.Text, ac.Clause.Expr, env, pos)
+		if !okc {
+			continue
+		}
 		if ac.Kind == "assert" {
 			x.oblige("order", fmt.Sprintf("%s@%s#%d", labelOr(ac.Clause.Label, 0), ac.Callee, ac.K), implies(reach, t), pos, ac.Clause.Text)
 		} else {
